@@ -240,9 +240,10 @@ def prog(env, case):
     out = fn(wrapper="cvxpy", solver=None, verbose=-1, **kwargs)
     tau = out[0]
     pep = _LAST_PEP[-1]
-    if tau is None:
+    # (1) the certificate identity on this very model ((2) and (3) are about the model and do not need a value: a replay
+    #     in which the numeric solver reports "unbounded" still evaluates them)
+    if env.sym and tau is None:
         return "no value"
-    # (1) the certificate identity on this very model
     if env.sym:
         m = pipeline.Model()
         m.pep = pep
@@ -290,7 +291,9 @@ def prog(env, case):
     #     of the recurrences stated in the example's docstring, on the same real member from the same starting point
     if name in DOCUMENTED and pep.list_of_points and pep.list_of_performance_metrics:
         x0v = run.point(pep.list_of_points[0])[0]
-        ref = documented(name, vals, case['n'], functions[0][1], x0v)
+        stat = [f_.list_of_stationary_points[0][0] for f_ in Function.list_of_functions if f_.list_of_stationary_points]
+        xsv = run.point(stat[0])[0] if stat else None
+        ref = documented(name, vals, case['n'], functions[0][1], x0v, fams=[fm for _, fm in functions], xs=xsv)
         got = run.expr(pep.list_of_performance_metrics[0])
         env.check_rel(got - ref, '==', "example %s (n=%d): the modelled method is not the documented one - the metric on a "
                       "real run differs from the documented recurrences' performance" % (name, case['n']),
@@ -301,10 +304,10 @@ def prog(env, case):
 
 
 DOCUMENTED = {'gradient_descent', 'gradient_descent_qg', 'heavy_ball', 'accelerated_gradient_convex', 'halpern',
-              'krasnoselskii_mann'}
+              'krasnoselskii_mann', 'proximal_point', 'proximal_gradient', 'proximal_point_operators'}
 
 
-def documented(name, vals, n, fam, x0):
+def documented(name, vals, n, fam, x0, fams=(), xs=None):
     """performance of the method as the example's docstring states it (written from the docstrings, independently of the
     example bodies), on the 1-D real member `fam` started at x0"""
     G = lambda x: fam.grad([x], None, 'doc')[0]
@@ -341,6 +344,27 @@ def documented(name, vals, n, fam, x0):
         for t in range(n):
             x = (1 - vals['gamma']) * x + vals['gamma'] * G(x)
         return (x - G(x)) * (x - G(x)) / 4
+    if name == 'proximal_point':
+        # x_{t+1} = prox_{gamma f}(x_t) = argmin_x gamma f(x) + |x - x_t|^2 / 2;  f(x_n) - f_*
+        # on the member f(x) = a/2 (x - c)^2 + b the proximal point is (x_t + gamma a c) / (1 + gamma a)
+        x = x0
+        for t in range(n):
+            x = (x + vals['gamma'] * fam.a * fam.c) / (1 + vals['gamma'] * fam.a)
+        return V(x) - V(fam.argmin(None)[0])
+    if name == 'proximal_gradient':
+        # y_t = x_t - gamma f1'(x_t);  x_{t+1} = prox_{gamma f2}(y_t);  |x_n - x_*|^2 with x_* the declared minimiser of f1 + f2
+        f1, f2 = fams[0], fams[1]
+        x = x0
+        for t in range(n):
+            y = x - vals['gamma'] * f1.grad([x], None, 'doc')[0]
+            x = (y + vals['gamma'] * f2.a * f2.c) / (1 + vals['gamma'] * f2.a)
+        return (x - xs) * (x - xs)
+    if name == 'proximal_point_operators':
+        # x_{t+1} = (I + alpha A)^{-1} x_t;  |x_n - x_{n-1}|^2;  on the member A x = a x + b the resolvent is (x - alpha b)/(1 + alpha a)
+        x, prev = x0, x0
+        for t in range(n):
+            prev, x = x, (x - vals['alpha'] * fam.b) / (1 + vals['alpha'] * fam.a)
+        return (x - prev) * (x - prev)
     raise KeyError(name)
 
 
